@@ -6,6 +6,7 @@ from platform import python_version_tuple
 PY2 = python_version_tuple()[0] == "2"
 
 import re
+import codecs
 from functools import partial
 
 from ural.utils import quote
@@ -18,7 +19,27 @@ if PY2:
 else:
     HEX_TO_BYTE = {(a + b).encode(): bytes.fromhex(a + b) for a in HEX for b in HEX}
 
+BYTE_TO_QUOTED = {v: "%" + k.decode().upper() for k, v in HEX_TO_BYTE.items()}
+
 ASCII_RE = re.compile("([\x00-\x7f]+)")
+C1_CONTROL_CHARS_RE = re.compile("[\x80-\x9f]")
+
+
+# NOTE: only used on ascii strings, where a non-ascii byte can only come from
+# an escape, which is therefore restored
+def keep_escaped(error):
+    obj = error.object
+    return (
+        "".join(BYTE_TO_QUOTED[obj[i : i + 1]] for i in range(error.start, error.end)),
+        error.end,
+    )
+
+
+codecs.register_error("ural-keep-escaped", keep_escaped)
+
+
+def quote_match(match):
+    return quote(match.group(0))
 
 
 def _unquote_impl(string, only_printable=False, unsafe=None):
@@ -60,8 +81,12 @@ def _generate_unquoted_parts(string, only_printable=False, unsafe=None):
 
         m = ascii_match.group(1)
         c = _unquote_impl(m, only_printable=only_printable, unsafe=unsafe).decode(
-            "utf-8", "replace"
+            "utf-8", "ural-keep-escaped" if only_printable else "replace"
         )
+
+        # NOTE: C1 control characters are not printable either
+        if only_printable:
+            c = C1_CONTROL_CHARS_RE.sub(quote_match, c)
 
         yield c
 
